@@ -11,7 +11,7 @@ echo "== demo WITH change"; timeout 600 /venv/bin/python $DEMO > /tmp/seed_$ID.w
 git apply -R /tmp/seed_$ID.diff     # (git stash is shared by all worktrees of a repository: never use it here)
 echo "== demo WITHOUT change"; timeout 600 /venv/bin/python $DEMO > /tmp/seed_$ID.without.log 2>&1; WO=$?; tail -2 /tmp/seed_$ID.without.log; echo "exit=$WO"
 git apply /tmp/seed_$ID.diff
-echo "== pytest WITH change"; timeout 1800 /venv/bin/python -m pytest -q -p no:cacheprovider --timeout=900 -n 8 --basetemp=/tmp/bt_$ID > /tmp/seed_$ID.pytest.log 2>&1; tail -1 /tmp/seed_$ID.pytest.log
+echo "== pytest WITH change"; timeout 1800 /venv/bin/python -m pytest -q -p no:cacheprovider --timeout=900 --basetemp=/tmp/bt_$ID > /tmp/seed_$ID.pytest.log 2>&1; tail -1 /tmp/seed_$ID.pytest.log
 /venv/bin/python -c "import plasTeX; print(plasTeX.__file__)"
 rm -rf /tmp/bt_$ID
 if [ $W -ne 0 ] && [ $WO -eq 0 ] && grep -q "360 passed" /tmp/seed_$ID.pytest.log; then
